@@ -1,7 +1,7 @@
 import re
 from typing import List
 
-from rimu import options, utils
+from rimu import macros, options, utils
 from rimu.expansion import Expand
 
 classes: str  # Space separated HTML class names.
@@ -28,10 +28,11 @@ def parse(attrs: str) -> bool:
        .class-names #id "css-properties" [html-attributes] block-options
     '''
     global classes, id, css, attributes, opts, ids  # pylint: disable=global-variable-not-assigned
-    if options.skipBlockAttributes():
-        return True
     text = attrs
-    text = utils.replaceInline(text, Expand(macros=True))
+    # With safe-mode bit 4 a Block Attributes line is ignored altogether (no diagnostics either);
+    # a line that only starts like one is not one: it is paragraph text in every safe mode.
+    skip = options.skipBlockAttributes()
+    text = macros.render(text, silent=True) if skip else utils.replaceInline(text, Expand(macros=True))
 
     # Kludge: The regexp is split in two to fix a catastrophic backtracking issue (without
     # this split the match was taking around 5 seconds!).
@@ -48,6 +49,8 @@ def parse(attrs: str) -> bool:
     m2 = r2.match(text[m1.end():])
     if m2 is None:
         return False
+    if skip:
+        return True
     if m1[1]:
         # HTML element class names.
         classes += f' {m1[1].strip()}'
